@@ -374,7 +374,7 @@ theorem scanTo_extend (max : Nat) {lgI lg' : Nat → List LRec} {fn : Nat}
     read -/
 def IdxImage (bits imax : Nat) (pool : NMap RecordList) (T0 : NMap Nat) (old fi : NMap Bytes) : Prop :=
   ∃ (M : Nat) (lgI : Nat → List LRec) (junk : Nat → Bytes) (blks : List (Nat × Nat)),
-    (∀ f, f ≤ M → fi.get? f = some (logBytes (lgI f) ++ junk f)) ∧ fi.get? (M + 1) = none ∧
+    (∀ f, f ≤ M → fi.get? f = some (logBytes (lgI f) ++ junk f)) ∧ (∀ f, M < f → fi.get? f = none) ∧
     (∀ f, f ≤ M → ∀ r ∈ lgI f, RecLogOK bits r) ∧ (∀ f, IsTorn bits (junk f)) ∧
     scanTo imax lgI M = setAll T0 blks ∧
     ∀ files' : NMap Bytes, (∀ f, f ≤ M → files'.get? f = some (logBytes (lgI f))) →
@@ -401,7 +401,7 @@ theorem ifold_image {bits : Nat} {T0 : NMap Nat} {pool : NMap RecordList}
   have ltable : scanTo m.imax lg' fn = setAll T0 blks := hL'.table
   have hNM' : fn ≤ M := hNM
   have hfi' : ∀ f, f ≤ M → fi.get? f = some (fileOf files f ++ junk f) := hfi
-  refine ⟨M, fun f => if f ≤ fn then lg' f else [], junk, blks, ?_, hab _ (by omega), ?_, htorn, ?_, ?_⟩
+  refine ⟨M, fun f => if f ≤ fn then lg' f else [], junk, blks, ?_, hab, ?_, htorn, ?_, ?_⟩
   · intro f hf
     rw [hfi' f hf]
     by_cases hff : f ≤ fn
